@@ -162,7 +162,9 @@ RECURSIVE RunGroups(_, _, _, _, _, _, _, _)
 RunGroups(s, keys, contrib, vgs, prs, sp, k, acc) ==
   IF k > MinI(Len(vgs), Len(prs)) THEN [res |-> acc, sp |-> sp]
   ELSE LET r == GroupCheck(s, keys, contrib, vgs[k], prs[k], sp, "batch")
-       IN RunGroups(s, keys, contrib, vgs, prs, r.sp, k + 1, Append(acc, r.res))
+       \* IPA returns false at the first group whose succinct check fails: the later groups never touch the sponge
+       IN IF s = "ipa" /\ r.res # "accept" THEN [res |-> Append(acc, r.res), sp |-> r.sp]
+          ELSE RunGroups(s, keys, contrib, vgs, prs, r.sp, k + 1, Append(acc, r.res))
 
 Combine(results) ==
   LET R == RangeOf(results) IN
